@@ -215,7 +215,7 @@ P_HK_AsyncAtNextTurn(h) == \A i \in Idx(h) : Op(h, i) = "turn" =>
         J == PSorted({j \in (t0 + 1)..(i - 1) : HKFiring(h, j) /\ h[j].cmd.async})
     IN Len(h[i].out.fired) = Len(J) /\ \A m \in 1..Len(J) : m <= Len(h[i].out.fired) => h[i].out.fired[m].res = h[J[m]].cmd.res
 P_HK_NothingSpurious(h) == \A i \in Idx(h) : h[i].out.fired # <<>> =>
-    (Op(h, i) = "turn" \/ (Op(h, i) = "call" /\ ~h[i].cmd.async /\ HKIsSet(h, i, h[i].cmd.name)))
+    (Op(h, i) = "turn" \/ (Op(h, i) = "call" /\ ~h[i].cmd.async /\ HKFiring(h, i)))
 
 (* ---------------- until ---------------- *)
 \* h[1] = start(K, pat): the k-th call of the action returns a value ("s"), a Deferred ("a", also beyond the pattern)
@@ -245,6 +245,44 @@ P_EC_SameResult(h) == \A i \in Idx(h) : h[i].out.target # "pending" =>
                                                      /\ h[i].out.tv = (IF Op(h, j) = "cb" THEN h[j].cmd.v ELSE h[j].cmd.e)
 P_EC_AfterTurn(h) == \A i \in Idx(h) : (Op(h, i) = "turn" /\ \E j \in 1..(i - 1) : Op(h, j) \in {"cb", "eb"}) => h[i].out.target # "pending"
 P_EC_PassThrough(h) == \A i \in Idx(h) : Op(h, i) \in {"cb", "eb"} => h[i].out.pass = (IF Op(h, i) = "cb" THEN h[i].cmd.v ELSE h[i].cmd.e)
+
+(* ---------------- async_to_deferred ---------------- *)
+\* the wrapper returns a Deferred (not a coroutine) and the body has started when it returns
+P_A2_ReturnsDeferred(h) == \A i \in Idx(h) : h[i].out.isdeferred /\ h[i].out.started
+\* the coroutine's return value / exception is the Deferred's result, also across an await
+P_A2_Result(h) == (h # <<>> /\ Op(h, 1) = "call") => \A i \in Idx(h) :
+    LET m == h[1].cmd.mode
+        A == {j \in 2..i : Op(h, j) \in {"cb", "eb"}} IN
+    CASE m = "ret" -> h[i].out.status = "ok" /\ h[i].out.v = "r"
+      [] m = "raise" -> h[i].out.status = "fail" /\ h[i].out.v = "E1"
+      [] OTHER -> IF A = {} THEN h[i].out.status = "pending"
+                  ELSE LET a == SetMin(A) IN IF Op(h, a) = "cb" THEN h[i].out.status = "ok" /\ h[i].out.v = "r:" \o h[a].cmd.v
+                                             ELSE h[i].out.status = "fail" /\ h[i].out.v = h[a].cmd.e
+
+(* ---------------- WaitForDelayedCallsMixin ---------------- *)
+WDTicks(h, i) == {j \in 1..i : Op(h, j) = "tick"}
+RECURSIVE WDNow(_, _)
+WDNow(h, i) == IF i = 0 THEN 0 ELSE WDNow(h, i - 1) + (IF Op(h, i) = "tick" THEN h[i].cmd.dt ELSE 0)
+WDCallTimes(h, i) == {WDNow(h, j) + h[j].cmd.dt : j \in {k \in 1..i : Op(h, k) = "later"}}
+WDWaitStep(h) == LET W == {j \in Idx(h) : Op(h, j) = "wait"} IN IF W = {} THEN 0 ELSE SetMin(W)
+WDFired(h, i) == h[i].out.status \in {"ok", "fail"}
+\* the Deferred fires with the argument of wait_for_delayed_calls (a failure stays a failure), once
+P_WD_PassThrough(h) == \A i \in Idx(h) : WDFired(h, i) =>
+    LET r == h[WDWaitStep(h)].cmd.res IN
+    /\ WDWaitStep(h) # 0 /\ WDWaitStep(h) <= i
+    /\ IF r = "F:E1" THEN h[i].out.status = "fail" /\ h[i].out.v = "E1" ELSE h[i].out.status = "ok" /\ h[i].out.v = r
+    /\ \A j \in i..Len(h) : h[j].out = h[i].out
+\* not while a DelayedCall is due within the next 10 seconds: when it fires there was an instant since the last
+\* observation at which every pending call was at least 10 s away
+P_WD_NotEarly(h) == \A i \in Idx(h) : (WDFired(h, i) /\ (i = 1 \/ ~WDFired(h, i - 1))) =>
+    LET t0 == WDNow(h, i - 1) t1 == WDNow(h, i) P == {c \in WDCallTimes(h, i - 1) : c > t0} IN
+    IF Op(h, i) = "wait" THEN \A c \in P : c >= t0 + 10
+    ELSE Op(h, i) = "tick" /\ \E n \in t0..t1 : \A c \in P : c <= n \/ c >= n + 10
+\* and not later than that: a whole second during which no pending call was due within 10 s ends the wait
+P_WD_NotLate(h) == \A i \in Idx(h) : (WDWaitStep(h) # 0 /\ WDWaitStep(h) <= i /\ ~WDFired(h, i)) =>
+    LET t0 == WDNow(h, i - 1) t1 == WDNow(h, i) P == {c \in WDCallTimes(h, i - 1) : c > t0} IN
+    IF Op(h, i) = "wait" THEN \E c \in P : c < t0 + 10
+    ELSE Op(h, i) = "tick" => \A n \in t0..(t1 - 1) : \E c \in P : n + 1 <= c /\ c <= n + 10
 
 (* ---------------- MemoryConsumer / download_to_data ---------------- *)
 \* the bytes [offset, offset+size) of the file, whatever the producer's style and chunking
@@ -321,6 +359,8 @@ PropList(k, h) ==
     [] k = "evchain" ->
          <<Rule("EC_Eventual", P_EC_Eventual(h)), Rule("EC_SameResult", P_EC_SameResult(h)), Rule("EC_AfterTurn", P_EC_AfterTurn(h)),
            Rule("EC_PassThrough", P_EC_PassThrough(h))>>
+    [] k = "a2d" -> <<Rule("A2_ReturnsDeferred", P_A2_ReturnsDeferred(h)), Rule("A2_Result", P_A2_Result(h))>>
+    [] k = "waitdc" -> <<Rule("WD_PassThrough", P_WD_PassThrough(h)), Rule("WD_NotEarly", P_WD_NotEarly(h)), Rule("WD_NotLate", P_WD_NotLate(h))>>
     [] k = "consumer" -> <<Rule("CN_Data", P_CN_Data(h)), Rule("CN_Resumes", P_CN_Resumes(h))>>
     [] k = "dictofsets" -> <<Rule("DS_NoEmptySets", P_DS_NoEmptySets(h)), Rule("DS_NoAlias", P_DS_NoAlias(h)), Rule("DS_AddDiscard", P_DS_AddDiscard(h))>>
     [] k = "auxdict" ->
